@@ -63,6 +63,9 @@ def _ctc_lists(names, xor=False, reqs=False):
 CAR5 = M(F('Fa', [R(1, 1, [F('Bb')]), R(0, 1, [F('Dc')]), R(0, 1, [F('Ad', [R(1, 1, [F('Ee')])])])]))
 DEEP1 = M(F('Fa', [R(1, 1, [F('Bb', [R(1, 1, [F('Ee')]), R(0, 1, [F('Gg')])]), F('Dc')])]))
 DEEP2 = M(F('Fa', [R(1, 2, [F('Bb', [R(1, 1, [F('Ee', [R(0, 1, [F('Hh')])])])]), F('Dc', [R(1, 1, [F('Gg'), F('Ii')])])])]))
+N7 = ('P1', 'P2', 'P3', 'P4', 'P5', 'P6', 'P7')
+CAR8 = M(F('Fa', [R(0, 1, [F(n)]) for n in N7]))
+CAR8G = M(F('Fa', [R(1, 7, [F(n) for n in N7])]))
 CAR5G = M(F('Fa', [R(1, 1, [F('Bb')]), R(1, 1, [F('Gp', [R(1, 3, [F('Dc'), F('Ad'), F('Ee')])])])]))
 
 
@@ -85,6 +88,8 @@ def cases(tier, seed):
     fide_models = [m for m in structs if fide_fragment(m)] + [DEEP1, DEEP2]
     fide_models += [rt.deviation(rt.deviation(CAR5, 2, ('abstract', None)), 0, ('abstract', None)), rt.deviation(CAR5, 1, ('name', 'a <b> & "c"'))]
     fide_models += [_with(CAR5, ts) for ts in _ctc_lists(('Bb', 'Dc', 'Ad', 'Ee'))]
+    fide_models += [_with(CAR8, [_chain('AND', N7)]), _with(CAR8, [_chain('OR', N7), ('NOT', _chain('AND', N7[:6]), None)]),
+                    _with(CAR8, [('IMPLIES', _chain('OR', N7[:5]), _chain('AND', N7[1:]))])]
     cover = [_key(fide, c) for c in fide.covering_choices()]
     full = [_key(fide, c) for c in fide.all_choices()]
     for i, m in enumerate(fide_models):
@@ -120,6 +125,8 @@ def cases(tier, seed):
     # ---- Glencoe
     glen_models = [m for m in structs if glencoe.in_fragment(m)] + [DEEP1, DEEP2]
     glen_models += [_with(CAR5G, ts) for ts in _ctc_lists(('Bb', 'Dc', 'Ad', 'Ee'), xor=True)]
+    glen_models += [_with(CAR8G, [_chain('AND', N7)]), _with(CAR8G, [_chain('OR', N7), ('NOT', _chain('AND', N7[:6]), None)]),
+                    _with(CAR8G, [('IMPLIES', _chain('OR', N7[:5]), _chain('AND', N7[1:]))])]
     cover = [_key(glencoe, c) for c in glencoe.covering_choices()]
     full = [_key(glencoe, c) for c in glencoe.all_choices()]
     for i, m in enumerate(glen_models):
